@@ -32,23 +32,48 @@ def main():
                 os.remove(os.path.join(wt, "tests", f))
         patch = os.path.join(d, "patch.ported.diff") if os.path.exists(os.path.join(d, "patch.ported.diff")) else os.path.join(d, "patch.diff")
         demo = os.path.join(wt, "tests", "seeded_demo.rs")
-        shutil.copy(os.path.join(d, "demo.rs"), demo)
-        rc, out = sh(["cargo", "test", "--offline", "--test", "seeded_demo"], wt, env)
+        meta = json.load(open(os.path.join(d, "meta.json")))
+        feats = ["--features", "encryption"] if "--features encryption" in json.dumps(meta) else []
+        unit_demo = os.path.exists(os.path.join(d, "demo_full.diff"))  # demonstration is a unit-test module inside the crate
+        if unit_demo:
+            sh(["git", "apply", os.path.join(d, "demo_full.diff")], wt, env)
+            demo_cmd = ["cargo", "test", "--offline", "--lib", "seeded_"] + feats
+        else:
+            shutil.copy(os.path.join(d, "demo.rs"), demo)
+            demo_cmd = ["cargo", "test", "--offline", "--test", "seeded_demo"] + feats
+        rc, out = sh(demo_cmd, wt, env)
+        if unit_demo and "running 0 tests" in out and "test result: ok. 0 passed" in out:
+            rc = 1  # the filter matched nothing: not a confirmation
         res["demo_passes_without_change"] = rc == 0
         res["demo_without_tail"] = out.strip().splitlines()[-3:]
         rc, out = sh(["git", "apply", patch], wt, env)
         res["patch_applies"] = rc == 0
         if rc == 0:
-            rc, out = sh(["cargo", "test", "--offline", "--test", "seeded_demo"], wt, env)
+            rc, out = sh(demo_cmd, wt, env)
             res["demo_fails_with_change"] = rc != 0 and "error: could not compile" not in out
             res["demo_with_tail"] = [l for l in out.strip().splitlines() if "panicked" in l or "test result" in l][-3:]
-            os.remove(demo)
+            if unit_demo:
+                # take the demonstration out again, keep the change
+                sh(["git", "apply", "-R", os.path.join(d, "demo_full.diff")], wt, env)
+            else:
+                os.remove(demo)
             rc, out = sh(["cargo", "test", "--workspace", "--no-fail-fast", "--offline"], wt, env)
             lines = [l for l in out.splitlines() if l.startswith("test result")]
             passed = sum(int(l.split()[3]) for l in lines)
             failed = sum(int(l.split()[5]) for l in lines)
-            res["suite_with_change"] = {"exit": rc, "passed": passed, "failed": failed, "failed_tests": [l for l in out.splitlines() if l.startswith("test ") and l.endswith("FAILED")][:10]}
+            failed_tests = [l for l in out.splitlines() if l.startswith("test ") and l.endswith("FAILED")][:10]
+            res["suite_with_change"] = {"exit": rc, "passed": passed, "failed": failed, "failed_tests": failed_tests}
+            # the repository has one wall-clock assertion (< 10 ms in a debug build) that fails on a loaded machine: re-run it alone
+            if failed_tests and all("test_sketch_candidate_speed" in t for t in failed_tests):
+                ok = False
+                for _ in range(3):
+                    rc2, out2 = sh(["cargo", "test", "--offline", "--lib", "test_sketch_candidate_speed"], wt, env)
+                    if rc2 == 0:
+                        ok = True
+                        break
+                res["suite_with_change"]["timing_test_alone_passes"] = ok
         sh(["git", "checkout", "--", "."], wt, env)
+        sh(["git", "clean", "-fdq", "src", "tests"], wt, env)
         res["patch_used"] = os.path.basename(patch)
         res["head"] = subprocess.run(["git", "-C", wt, "log", "--format=%h", "-1"], stdout=subprocess.PIPE, text=True).stdout.strip()
         res["wall_s"] = round(time.time() - t0)
